@@ -12,7 +12,7 @@ Lemma og_OBusNew : forall n L s a0 a1 a2 a3 s1 sends e,
 Proof.
   intros n L s a0 a1 a2 a3 s1 sends e I Hw H.
   cbn [wf_op] in Hw; try discriminate Hw; split_ands.
-  unfold obj_step, ok, fail in H.
+  unfold obj_step, obj_step_core, ok, fail in H.
   brk_hyp H; inversion H; subst; clear H.
   all: cbn [flat_map send_msgs app].
   all: cbn [op_ids].
@@ -39,7 +39,7 @@ Lemma og_OBusFree : forall n L s a0 s1 sends e,
 Proof.
   intros n L s a0 s1 sends e I Hw H.
   cbn [wf_op] in Hw; try discriminate Hw; split_ands.
-  unfold obj_step, ok, fail in H.
+  unfold obj_step, obj_step_core, ok, fail in H.
   brk_hyp H; inversion H; subst; clear H.
   all: cbn [flat_map send_msgs app].
   all: cbn [op_ids].
@@ -61,7 +61,7 @@ Lemma og_OBusSub : forall n L s a0 a1 a2 s1 sends e,
 Proof.
   intros n L s a0 a1 a2 s1 sends e I Hw H.
   cbn [wf_op] in Hw; try discriminate Hw; split_ands.
-  unfold obj_step, ok, fail in H.
+  unfold obj_step, obj_step_core, ok, fail in H.
   brk_hyp H; inversion H; subst; clear H.
   all: cbn [flat_map send_msgs app].
   all: cbn [op_ids].
@@ -90,7 +90,7 @@ Lemma og_OBusSet : forall n L s a0 a1 a2 s1 sends e,
 Proof.
   intros n L s a0 a1 a2 s1 sends e I Hw H.
   cbn [wf_op] in Hw; try discriminate Hw; split_ands.
-  unfold obj_step, ok, fail in H.
+  unfold obj_step, obj_step_core, ok, fail in H.
   brk_hyp H; inversion H; subst; clear H.
   all: cbn [flat_map send_msgs app].
   all: cbn [op_ids].
@@ -121,7 +121,7 @@ Lemma og_OBusSetn : forall n L s a0 a1 a2 s1 sends e,
 Proof.
   intros n L s a0 a1 a2 s1 sends e I Hw H.
   cbn [wf_op] in Hw; try discriminate Hw; split_ands.
-  unfold obj_step, ok, fail in H.
+  unfold obj_step, obj_step_core, ok, fail in H.
   brk_hyp H; inversion H; subst; clear H.
   all: cbn [flat_map send_msgs app].
   all: cbn [op_ids].
@@ -156,7 +156,7 @@ Lemma og_OBusSetPairs : forall n L s a0 a1 s1 sends e,
 Proof.
   intros n L s a0 a1 s1 sends e I Hw H.
   cbn [wf_op] in Hw; try discriminate Hw; split_ands.
-  unfold obj_step, ok, fail in H.
+  unfold obj_step, obj_step_core, ok, fail in H.
   brk_hyp H; inversion H; subst; clear H.
   all: cbn [flat_map send_msgs app].
   all: cbn [op_ids].
@@ -187,7 +187,7 @@ Lemma og_OBusFill : forall n L s a0 a1 a2 s1 sends e,
 Proof.
   intros n L s a0 a1 a2 s1 sends e I Hw H.
   cbn [wf_op] in Hw; try discriminate Hw; split_ands.
-  unfold obj_step, ok, fail in H.
+  unfold obj_step, obj_step_core, ok, fail in H.
   brk_hyp H; inversion H; subst; clear H.
   all: cbn [flat_map send_msgs app].
   all: cbn [op_ids].
@@ -209,7 +209,7 @@ Lemma og_OBusClear : forall n L s a0 s1 sends e,
 Proof.
   intros n L s a0 s1 sends e I Hw H.
   cbn [wf_op] in Hw; try discriminate Hw; split_ands.
-  unfold obj_step, ok, fail in H.
+  unfold obj_step, obj_step_core, ok, fail in H.
   brk_hyp H; inversion H; subst; clear H.
   all: cbn [flat_map send_msgs app].
   all: cbn [op_ids].
@@ -231,7 +231,7 @@ Lemma og_OBusGet : forall n L s a0 s1 sends e,
 Proof.
   intros n L s a0 s1 sends e I Hw H.
   cbn [wf_op] in Hw; try discriminate Hw; split_ands.
-  unfold obj_step, ok, fail in H.
+  unfold obj_step, obj_step_core, ok, fail in H.
   brk_hyp H; inversion H; subst; clear H.
   all: cbn [flat_map send_msgs app].
   all: cbn [op_ids].
@@ -253,7 +253,7 @@ Lemma og_OBusGetn : forall n L s a0 a1 s1 sends e,
 Proof.
   intros n L s a0 a1 s1 sends e I Hw H.
   cbn [wf_op] in Hw; try discriminate Hw; split_ands.
-  unfold obj_step, ok, fail in H.
+  unfold obj_step, obj_step_core, ok, fail in H.
   brk_hyp H; inversion H; subst; clear H.
   all: cbn [flat_map send_msgs app].
   all: cbn [op_ids].
@@ -275,7 +275,7 @@ Lemma og_ORaw : forall n L s a0 s1 sends e,
 Proof.
   intros n L s a0 s1 sends e I Hw H.
   cbn [wf_op] in Hw; try discriminate Hw; split_ands.
-  unfold obj_step, ok, fail in H.
+  unfold obj_step, obj_step_core, ok, fail in H.
   brk_hyp H; inversion H; subst; clear H.
   all: cbn [flat_map send_msgs app].
   all: cbn [op_ids].
@@ -300,7 +300,7 @@ Lemma og_OBindEnter : forall n L s  s1 sends e,
 Proof.
   intros n L s  s1 sends e I Hw H.
   cbn [wf_op] in Hw; try discriminate Hw; split_ands.
-  unfold obj_step, ok, fail in H.
+  unfold obj_step, obj_step_core, ok, fail in H.
   brk_hyp H; inversion H; subst; clear H.
   all: cbn [flat_map send_msgs app].
   all: cbn [op_ids].
@@ -322,7 +322,7 @@ Lemma og_OBindExit : forall n L s  s1 sends e,
 Proof.
   intros n L s  s1 sends e I Hw H.
   cbn [wf_op] in Hw; try discriminate Hw; split_ands.
-  unfold obj_step, ok, fail in H.
+  unfold obj_step, obj_step_core, ok, fail in H.
   brk_hyp H; inversion H; subst; clear H.
   all: cbn [flat_map send_msgs app].
   all: cbn [op_ids].
@@ -344,7 +344,7 @@ Lemma og_OBindRaise : forall n L s a0 s1 sends e,
 Proof.
   intros n L s a0 s1 sends e I Hw H.
   cbn [wf_op] in Hw; try discriminate Hw; split_ands.
-  unfold obj_step, ok, fail in H.
+  unfold obj_step, obj_step_core, ok, fail in H.
   brk_hyp H; inversion H; subst; clear H.
   all: cbn [flat_map send_msgs app].
   all: cbn [op_ids].
@@ -366,7 +366,7 @@ Lemma og_OSync : forall n L s a0 s1 sends e,
 Proof.
   intros n L s a0 s1 sends e I Hw H.
   cbn [wf_op] in Hw; try discriminate Hw; split_ands.
-  unfold obj_step, ok, fail in H.
+  unfold obj_step, obj_step_core, ok, fail in H.
   brk_hyp H; inversion H; subst; clear H.
   all: cbn [flat_map send_msgs app].
   all: cbn [op_ids].
